@@ -31,6 +31,11 @@ def obligations(tier):
                  backend=PORTFOLIO, flags=['--slice-formula'],
                  desc='conversions before the first and after the last pair: no access outside the exactly sized arrays (map exactly full at N=2)',
                  bound='N<=2 pairs (map exactly full with the 2-entry hook), deltas < 2^8'))
+    o.append(Obl('O2_tmap_tick_accuracy', 'c12_tmap.c', units=['tmap.c'], defines=base + ['WITH_TICK=1'], unwind=6, timeout=900, backend=PORTFOLIO,
+                 ladder=([('N2_V6', ['NMAX=2', 'VBITS=6'], None, None)] if tier == 'quick' else [('N2_V8', ['NMAX=2', 'VBITS=8'], None, None), ('N2_V6', ['NMAX=2', 'VBITS=6'], None, None)]),
+                 desc='inside a segment, id -> time is within one tick and time -> id within one sample of the exact linear value (integer oracle), '
+                      'for anchors of any magnitude up to 2^62 (where a double no longer holds the anchor exactly)',
+                 bound='2 pairs, id/time deltas < 2^VBITS per rung label, |id0|,|t0| < 2^62'))
     for n, df in ([(27, 3)] if tier == 'quick' else [(5, 2), (7, 2), (8, 2), (10, 3), (27, 3)]):
         o.append(Obl('O1_utc_seek_D%d_N%d' % (df, n), 'c11_seek.c', units=['core.c', 'buffer.c'], seams={'core.c': ['jls_core_rd_chunk']},
                      defines=['JLS_VERIF_SIGNAL_COUNT=2', 'JLS_VERIF_SOURCE_COUNT=2', 'JLS_VERIF_FSR_BUFFER_U64=2', 'JLS_VERIF_BUF_DEFAULT_SIZE=128', 'JLS_VERIF_BUF_STRING_SIZE=16',
